@@ -155,6 +155,7 @@ func Gen(seed uint64, profile string) *Scenario {
 				sc.Archives[0].Entries = append(pre, sc.Archives[0].Entries...)
 			}
 		}
+		lateRecipes(seed, sc)
 		// later calls of the same process: another destination, or the same one emptied by the caller
 		for i := 1; i < len(sc.Archives); i++ {
 			hr := simkit.NewRNG(seed, "uw/seq"+string(rune('0'+i)))
@@ -758,4 +759,41 @@ func itoa(i int) string {
 		b = append([]byte{'-'}, b...)
 	}
 	return string(b)
+}
+
+// lateRecipes puts one of a few hand-made openings in front of the first
+// archive (each in one run of fifteen or so): conjunctions that random entries
+// practically never form.
+func lateRecipes(seed uint64, sc *Scenario) {
+	dst := strings.TrimRight(sc.Dst, "/")
+	pre := func(es ...Entry) { sc.Archives[0].Entries = append(es, sc.Archives[0].Entries...) }
+	if r := simkit.NewRNG(seed, "uw/iflnk"); r.Chance(1, 15) {
+		// two links that lead out only when followed one through the other, then an entry of
+		// the second link's name whose type flag says file (or directory) while the type bits
+		// of its mode field say symbolic link
+		out, typ, mode, body := "victim", "reg", int64(0o120644), "PWN-iflnk;"
+		if r.Chance(1, 3) {
+			out, typ, mode, body = "ext/dir", "dir", 0o120700, ""
+		}
+		name := "cfg"
+		if typ == "dir" {
+			name = "cfg/"
+		}
+		pre(Entry{Name: "here", Type: "sym", Mode: 0o777, Sec: 1000000000, Link: "."},
+			Entry{Name: "cfg", Type: "sym", Mode: 0o777, Sec: 1000000000, Link: "here/../" + out},
+			Entry{Name: name, Type: typ, Mode: mode, Sec: 1000000001, Body: body})
+	}
+	if r := simkit.NewRNG(seed, "uw/absname-link"); r.Chance(1, 15) {
+		// a link under an absolute name whose target climbs as far as the name is deep and then
+		// spells out the destination: inside when judged from the file-system root
+		pre(Entry{Name: "cfg/v1/", Type: "dir", Mode: 0o755, Sec: 1000000000},
+			Entry{Name: simkit.Pick(r, []string{"/cfg/current", "/cfg/current", "//cfg/current"}), Type: "sym", Mode: 0o777, Sec: 1000000000, Link: "../.." + dst + "/cfg/v1"})
+	}
+	if r := simkit.NewRNG(seed, "uw/hard-of-link"); r.Chance(1, 15) {
+		// a hard link, nearer the top, to a symbolic link whose target climbs
+		pre(Entry{Name: "shared/", Type: "dir", Mode: 0o755, Sec: 1000000000},
+			Entry{Name: "modules/net/", Type: "dir", Mode: 0o755, Sec: 1000000000},
+			Entry{Name: "modules/net/shared", Type: "sym", Mode: 0o777, Sec: 1000000000, Link: "../../shared"},
+			Entry{Name: simkit.Pick(r, []string{"shared-link", "modules/shared-link"}), Type: "hard", Mode: 0o777, Sec: 1000000001, Link: "modules/net/shared"})
+	}
 }
